@@ -7,6 +7,8 @@ package varsig
 // varsigOf(kt): the constant varsig header go-ucan announces for libp2p key type kt.
 //@ ghost func varsigOf(kt int) string
 //@
+//@ ghost func varsigErr(kt int) error
 //@ func Encode
 //@   trusted
+//@   ensures result1 == varsigErr(keyType)
 //@   ensures result1 == nil ==> bytes(result0) == varsigOf(keyType)
